@@ -5,18 +5,24 @@ from trees import *
 from polys import *
 
 
-def gen_configurator(rng, quick=True, int_leaf=False, nested=True):
+def gen_configurator(rng, quick=True, int_leaf=False, nested=True, top_items=False):
     """AST of a StingyConfigurator over boolean items (optionally one integer item `t`)"""
     items = list("abcdefgh")[:rng.randint(3, 5 if quick else 7)]
     k = [0]
     def rid():
         k[0] += 1
         return f"R{k[0]}"
+    # how the items are handed over: id strings, plain variable objects, or instances of a variable subclass
+    form = rng.choice(["str", "str", "str", "var", "sub"])
+    def item(i):
+        if form == "str": return {"c": "str", "id": i}
+        if form == "var": return {"c": "var", "id": i, "lo": 0, "hi": 1}
+        return {"c": "var", "id": i, "lo": 0, "hi": 1, "$sub": True}
     def leaf():
-        return {"c": "str", "id": rng.choice(items)}
+        return item(rng.choice(items))
     def group(n):
         ids = rng.sample(items, min(n, len(items)))
-        return [{"c": "str", "id": i} for i in ids]
+        return [item(i) for i in ids]
     def rule(depth):
         kind = rng.choice(["ccAny", "ccXor", "ccAnyD", "ccXorD", "AtMost", "All", "Any", "Imply", "Xor", "ExactlyOne", "XNor", "AtLeast"])
         a = {}
@@ -27,7 +33,7 @@ def gen_configurator(rng, quick=True, int_leaf=False, nested=True):
                 args.append(rule(depth - 1))
             a.update(c=kind[:5], args=args)
             if kind.endswith("D"):
-                a["default"] = [rng.choice([x["id"] for x in args if x["c"] == "str"])]
+                a["default"] = [rng.choice([x["id"] for x in args if x["c"] in ("str", "var")])]
         elif kind == "AtMost":
             a.update(c="AtMost", v=rng.randint(1, 2), args=group(rng.randint(2, 3)))
         elif kind in ("All", "Any", "Xor", "ExactlyOne", "XNor"):
@@ -47,6 +53,14 @@ def gen_configurator(rng, quick=True, int_leaf=False, nested=True):
         lo = rng.randint(0, 2)
         rules.append({"c": "AtLeast", "v": rng.randint(1, 3), "args": [{"c": "var", "id": "t", "lo": lo, "hi": lo + rng.randint(2, 4)},
                                                                       {"c": "str", "id": items[0]}], "id": rid(), "sign": 1})
+    if top_items and rng.random() < 0.35:
+        # items listed directly in the configurator: strings, variable objects (also fixed or integer-valued ones)
+        for i in rng.sample(["p", "q", "n"], rng.randint(1, 2)):
+            r = rng.random()
+            if r < 0.3: rules.append({"c": "str", "id": i})
+            elif r < 0.5: rules.append({"c": "var", "id": i, "lo": 0, "hi": 1, **({"$sub": True} if rng.random() < 0.4 else {})})
+            elif r < 0.75: rules.append({"c": "var", "id": i, "lo": 1, "hi": 1})
+            else: rules.append({"c": "var", "id": i, "lo": 0, "hi": rng.randint(2, 3)})
     cfg = {"c": "Stingy", "args": rules}
     if rng.random() < 0.8: cfg["id"] = "cfg"
     return cfg
